@@ -104,4 +104,18 @@ CLAIMS = {
                 "(subset => <=, strict subset => <) are assumed (A-CARD); 'kept assertions hold on re-execution' depends "
                 "on executor determinism and is outside the proof; the summary part is bounded, never counted as proved.",
     },
+    "C13": {
+        "category": "proof",
+        "text": "Unbounded proof on the real CoverageArchive and MIOPopulation: update keeps covered ∪ uncovered = objectives "
+                "(disjoint), covered goals only grow, every entry is the old one or a given solution that covers the goal, a "
+                "goal covered by a given solution ends up covered, the running best always is the stored entry; "
+                "_is_better_than_current equals the statement's order (error-free where the old one was not, else strictly "
+                "shorter); add_goals/reset/solutions keep the invariant; MIOPopulation never exceeds its capacity, a covered "
+                "target stays covered with exactly one solution; DynaMOSA's local_search never modifies an archived "
+                "chromosome (it works on clones).",
+        "note": "coverage verdict, last result and size of a chromosome are abstract observations (uninterpreted, unchanged "
+                "during an archive operation); callbacks are assumed not to touch the archive; list.sort/clone/"
+                "create_test_suite/TestSuiteLocalSearch.local_search are assumed contracts; 'covers when re-executed' "
+                "relies on C12's determinism assumption; MIOArchive.update and _GoalsManager.update are not yet under contract.",
+    },
 }
